@@ -5,6 +5,7 @@ simkit::interpose_getrandom!();
 mod core;
 mod core2;
 mod core3;
+mod core4;
 mod net;
 mod node;
 mod probe;
@@ -14,5 +15,6 @@ fn main() {
     checks.extend(core::checks());
     checks.extend(core2::checks());
     checks.extend(core3::checks());
+    checks.extend(core4::checks());
     simkit::main_with(checks);
 }
